@@ -119,7 +119,20 @@ ProgLists ==
              [k |-> "co", ty |-> ListRef("base", "i32"), val |-> CList(CInt)], [k |-> "co", ty |-> ListRef("base", "i32"), val |-> CRef("b", "x")] },
     ay \in { [k |-> "no"], [k |-> "co", ty |-> ListRef("", "E"), val |-> CRef("", "x")] } }
 
+\* ---- family "selfstruct": constants of a recursive struct type whose literals name constants again, themselves included
+\*      (const S x = {"f": x}; x = {"f": y}, y = {"f": x}): a constant is never defined in terms of itself
+SLit(v) == CStruct(v)
+ProgSelfStruct ==
+  { [inc |-> IncNone,
+     ty |-> (Key("a", "S") :> [k |-> "st", fty |-> Bare("S"), dfl |-> CNone]) @@ (Key("a", "L") :> [k |-> "td", tgt |-> ListRef("", "S")]),
+     co |-> (Key("a", "x") :> cx) @@ (Key("a", "y") :> cy) @@ (Key("a", "z") :> cz), sv |-> EmptySv] :
+    cx \in { [k |-> "co", ty |-> Bare("S"), val |-> v] : v \in { SLit(CRef("", "x")), SLit(CRef("", "y")), SLit(SLit(CRef("", "x"))), CEMap, SLit(CEMap) } },
+    cy \in { [k |-> "no"] } \cup { [k |-> "co", ty |-> Bare("S"), val |-> v] : v \in { SLit(CRef("", "x")), SLit(CRef("", "z")), CEMap } },
+    cz \in { [k |-> "no"] } \cup { [k |-> "co", ty |-> Bare("L"), val |-> v] : v \in { CList(CRef("", "x")), CList(SLit(CRef("", "z"))) } }
+                        \cup { [k |-> "co", ty |-> Bare("S"), val |-> SLit(CRef("", "y"))] } }
+
 Programs == CASE Family = "types"   -> ProgTypes
+              [] Family = "selfstruct" -> ProgSelfStruct
               [] Family = "lists"   -> ProgLists
               [] Family = "aliasitem" -> ProgAliasItem
               [] Family = "dotted"  -> ProgDotted
